@@ -22,6 +22,12 @@ func (m *Manager) SyncLoop(ctx context.Context, errCh chan<- error) {
 	metricsTicker := time.NewTicker(30 * time.Second)
 	defer metricsTicker.Stop()
 
+	// caches loaded from disk may already hold both parts of the next block (and mark them as seen)
+	if err := m.trySyncNextBlock(ctx, m.daHeight.Load()); err != nil {
+		errCh <- fmt.Errorf("failed to sync next block: %w", err)
+		return
+	}
+
 	for {
 		select {
 		case <-daTicker.C:
